@@ -35,6 +35,7 @@ var _ net.Listener = (*GRPCServerMuxer)(nil)
 // unblocked when a knock is received for the matching stream ID.
 type GRPCServerMuxer struct {
 	addr   net.Addr
+	ln     net.Listener
 	logger hclog.Logger
 
 	sessionErrCh chan error
@@ -49,6 +50,7 @@ type GRPCServerMuxer struct {
 func NewGRPCServerMuxer(logger hclog.Logger, ln net.Listener) *GRPCServerMuxer {
 	m := &GRPCServerMuxer{
 		addr:   ln.Addr(),
+		ln:     ln,
 		logger: logger,
 
 		sessionErrCh: make(chan error),
@@ -150,12 +152,20 @@ func (m *GRPCServerMuxer) Addr() net.Addr {
 }
 
 func (m *GRPCServerMuxer) Close() error {
+	// Also close the listener this muxer was handed: the muxer took its place
+	// in plugin.Serve, so nobody else closes it (and, for a Unix socket,
+	// removes its file) any more.
+	lnErr := m.ln.Close()
+
 	session, err := m.session()
 	if err != nil {
 		return err
 	}
 
-	return session.Close()
+	if err := session.Close(); err != nil {
+		return err
+	}
+	return lnErr
 }
 
 func (m *GRPCServerMuxer) Enabled() bool {
